@@ -67,6 +67,8 @@ def signature(pid, flag, ev):
         sig["kind"] = p.get("kind")
     if ev.get("panic"):
         sig["panic"] = True
+    if flag.get("cause") and flag["cause"] != "none":
+        sig["ctx"] = flag["cause"]
     for k in ("cause", "shape", "ctx"):
         if k in ev:
             sig[k] = ev[k]
@@ -447,7 +449,7 @@ def g_nc_shapes(rng, tier, props):
 
 
 def g_nc_bits(rng, tier, props):
-    return GN.bit_schedules(rng, props, tier != "quick")
+    return GN.bit_schedules(rng, props, tier != "quick") + GN.proto_bit_schedules(rng, props)
 
 
 def g_nc_live(rng, tier, props):
@@ -467,14 +469,25 @@ MSG_ASSUME = [
 ]
 
 PLANS = {
-    "C04": Plan("nc", "TraceNetcodeMon", ["C04"], [("payload_histories", g_nc_payload)], assumptions=NC_ASSUME),
-    "C05": Plan("nc", "TraceNetcodeMon", ["C05"], [("handshake_histories", g_nc_handshake)], assumptions=NC_ASSUME),
-    "C07": Plan("nc", "TraceNetcodeMon", ["C07"], [("shapes", g_nc_shapes), ("bits", g_nc_bits), ("handshake_histories", g_nc_handshake)], assumptions=NC_ASSUME),
-    "C10": Plan("nc", "TraceNetcodeMon", ["C10"], [("handshake_histories", g_nc_handshake), ("payload_histories", g_nc_payload)], assumptions=NC_ASSUME),
+    "C04": Plan("nc", "TraceNetcodeMon", ["C04"], [("payload_histories", g_nc_payload)],
+                mc=[mc_job("nc_payload", "MC_Netcode", {"quick": ["MC_NC_q4.cfg"], "thorough": ["MC_NC_q4.cfg", "MC_NC_q1.cfg"]}, ["C04"], strict=False)],
+                level="model_checking", assumptions=NC_ASSUME),
+    "C05": Plan("nc", "TraceNetcodeMon", ["C05"], [("handshake_histories", g_nc_handshake)],
+                mc=[mc_job("nc_cross", "MC_Netcode", {"quick": ["MC_NC_q1.cfg"], "thorough": ["MC_NC_q1.cfg", "MC_NC_q2.cfg", "MC_NC_q3.cfg"]}, ["C05"], strict=False)],
+                level="model_checking", assumptions=NC_ASSUME),
+    "C07": Plan("nc", "TraceNetcodeMon", ["C07"], [("shapes", g_nc_shapes), ("bits", g_nc_bits), ("handshake_histories", g_nc_handshake)],
+                mc=[mc_job("nc_cross", "MC_Netcode", {"quick": ["MC_NC_q3.cfg"], "thorough": ["MC_NC_q1.cfg", "MC_NC_q3.cfg"]}, ["C07"], strict=False)],
+                level="model_checking", assumptions=NC_ASSUME),
+    "C10": Plan("nc", "TraceNetcodeMon", ["C10"], [("handshake_histories", g_nc_handshake), ("payload_histories", g_nc_payload)],
+                mc=[mc_job("nc_table", "MC_Netcode", {"quick": ["MC_NC_q2.cfg"], "thorough": ["MC_NC_q1.cfg", "MC_NC_q2.cfg", "MC_NC_q3.cfg"]}, ["C10"], strict=False)],
+                level="model_checking", assumptions=NC_ASSUME),
     "C17": Plan("nc", "TraceNetcodeMon", ["C17"], [("bits", g_nc_bits), ("handshake_histories", g_nc_handshake), ("payload_histories", g_nc_payload)],
-                assumptions=NC_ASSUME),
+                mc=[mc_job("nc_nonce", "MC_Netcode", {"quick": ["MC_NC_q3.cfg"], "thorough": ["MC_NC_q1.cfg", "MC_NC_q2.cfg", "MC_NC_q3.cfg", "MC_NC_q4.cfg"]}, ["C17"], strict=False)],
+                level="model_checking", assumptions=NC_ASSUME),
     "C18": Plan("nc", "TraceNetcodeMon", ["C18"], [("liveness", g_nc_live)], assumptions=NC_ASSUME),
-    "C19": Plan("nc", "TraceNetcodeMon", ["C19"], [("handshake_histories", g_nc_handshake), ("shapes", g_nc_shapes)], assumptions=NC_ASSUME),
+    "C19": Plan("nc", "TraceNetcodeMon", ["C19"], [("handshake_histories", g_nc_handshake), ("shapes", g_nc_shapes)],
+                mc=[mc_job("nc_cross", "MC_Netcode", {"quick": ["MC_NC_q1.cfg"], "thorough": ["MC_NC_q1.cfg", "MC_NC_q3.cfg"]}, ["C19"], strict=False)],
+                level="model_checking", assumptions=NC_ASSUME),
     "C01": Plan("msg", "TraceRenetMon", ["C01"], [("random_ro", g_random_ro), ("random_mixed", g_random_mixed)],
                 mc=[mc_job("conn_ro", "MC_Conn", {"quick": ["MC_C01_q1.cfg"], "thorough": ["MC_C01_q1.cfg", "MC_C01_t1.cfg"]}, ["C01"])],
                 level="model_checking", assumptions=MSG_ASSUME),
